@@ -627,8 +627,11 @@ pub fn run(args: &Args) {
 		cx.case(format!("C15 inclc {s} {} {}", rng.below(m as u64 + 1), rng.below(m as u64 + 1)), unary_nt(&a));
 		// grids: only when the number of cells stays small
 		for size in [1u32, 2, 3, 32, 256, 1000, 1 << level.min(31), 1 << 31, u32::MAX] {
-			let cells = den(&a).map_or(0, |d| (d.2 / size as u64 - d.0 / size as u64 + 1) * (d.3 / size as u64 - d.1 / size as u64 + 1));
-			if cells <= 64 { cx.case(format!("C15 grid {s} {size}"), cells > 1); }
+			// number of meta cells the code walks, computed from the raw fields: an empty encoding can
+			// scale down to a NON-empty meta box (e.g. x: 5..3 with size 8 -> 0..0) with a huge other axis
+			let span = |lo: u32, hi: u32| -> u64 { let (l, h) = ((lo / size) as u64, (hi / size) as u64); if h >= l { h - l + 1 } else { 0 } };
+			let cells = span(a.x_min, a.x_max) * span(a.y_min, a.y_max);
+			if cells <= 4096 { cx.case(format!("C15 grid {s} {size}"), den(&a).is_some() && cells > 1); }
 		}
 		if r_count(den(&a)) <= 64 { cx.case(format!("C15 iter {s}"), unary_nt(&a)); }
 		if i % 4 == 0 {
